@@ -882,9 +882,18 @@ def gen_events_script(rng, sid, focus):
             t, i = w.rand_point()
             if t != "oct":
                 w.ops.append(("updf", t, i, rng.choice([1, 0, 2, 0x41]), time_tok(rand_meas(rng, t).time), rng.choice(["f1", "d1"])))
-        else:
+        elif r < 99:
             t, i = w.rand_point()
             w.ops.append(("get", t, i))
+        else:
+            # points come and go; buffered events of a removed point are still reported
+            t, i = w.rand_point()
+            if rng.chance(1, 2):
+                w.ops.append(("rm", t, i))
+                if i in w.points[t]:
+                    w.points[t].remove(i)
+            else:
+                w.add_point(t, rng.below(12))
     # final sweep: everything unreleased must still be offered and be written oldest first
     w.ops += [("rst",), ("iin",), ("selm", "111"), ("wre", 60000), ("iin",), ("clr",), ("iin",)]
     return w
@@ -947,6 +956,15 @@ def gen_static_script(rng, sid):
                     w.update(mode=rng.choice(["s1", "f1", "d1", "s0"]))
             if rng.chance(1, 6):
                 w.ops.append(("clr",))
+            if rng.chance(1, 25):
+                # a point added or removed while a series is in progress
+                t, i = w.rand_point()
+                if rng.chance(1, 2):
+                    w.ops.append(("rm", t, i))
+                    if i in w.points[t]:
+                        w.points[t].remove(i)
+                else:
+                    w.add_point(t, rng.below(12))
         w.ops += [("wr", 60000)]
         if rng.chance(1, 2):
             w.ops.append(("rst",))
